@@ -29,7 +29,9 @@ DECIDES = ('C24-I5: every emitted call to a FunctionArguments.c helper has the a
            'C24-IDX: every table pointer of the keyword parser is a linear form argnames + k*num_pos_args of the entry point\'s parameters (helpers bound at their call sites): a hit\'s slot is '
            '`cursor - argnames`, keyword lookups scan from argnames + num_pos_args, duplicate-of-positional checks scan [argnames, argnames + num_pos_args); '
            'C24-POSONLY: every counter that offsets values[] indices against the keyword-name table (values + K, nargs - K, pykwdlist[i - K]; locals or parameters bound at self.method() call sites) '
-           'counts exactly the positional-only parameters, the complement of the `not arg.pos_only` filter of the table; '
+           'counts exactly the positional-only parameters, the complement of the `not arg.pos_only` filter of the table, AND runs over the list the table is filtered from (the same local / a parameter bound to it at every call site / '
+           'the loop that files the arguments into its component lists / another collection only under the membership conditions of that list); counters are followed through aliases, sum()/len() comprehensions, helper methods and '
+           '`self.<attr>` to the method that stores them (round 7: seed C24i, DefNode.num_posonly_args counts self/cls of extension-type methods); '
            'C24-KWCOUNT: the num_kwargs argument of __Pyx_ParseKeywords is the keyword count, the num_pos_args argument is 0 or a C variable defined from nargs in the same function; '
            'C24-UNKNOWN: the unexpected-keyword exit of every parser that gets the flags is reachable exactly for (kwds2 NULL, ignore_unknown_kwargs 0) — truth table of its enclosing conditions; '
            'C24-KWSTR: __Pyx_CheckKeywordStrings is emitted on every path before __Pyx_KwargsAsDict_*; '
@@ -88,6 +90,9 @@ MUTATIONS = [
     ('Cython/Utility/FunctionArguments.c', 'keyword scan started at argnames; first_kw_arg = argnames; duplicate scan started at first_kw_arg', 'C24-IDX keyword-scan-start / positional-scan-range (3 variants)'),
     ('Cython/Utility/FunctionArguments.c', '`else if (ignore_unknown_kwargs) goto invalid_keyword`', 'C24-UNKNOWN'),
     ('Cython/Compiler/Nodes.py', 'seed C24d and siblings: offset = number of REQUIRED positional-only args (passed in / counted locally / in pykwdlist[i - K]); name table also filtered by kw_only', 'C24-POSONLY (4 variants)'),
+    ('Cython/Compiler/Nodes.py', 'round 7 (mutants/C24/posdom-*): seed C24i (offset = self.num_posonly_args) and siblings: attribute used only for values + K / pykwdlist[i - K] / passed in by the caller, local loop or sum() over '
+                                 'self.args / self.target.args, counter moved before the is_generic / self-arg filters, only is_generic filtered; rewrites (sum over all_args, helper method, self.args with the full filters, renamed parameter + len([...])) silent',
+     'C24-POSONLY domain (7 variants)'),
     ('Cython/Compiler/Nodes.py', 'num_pos_args / num_kwargs operands of __Pyx_ParseKeywords exchanged; __Pyx_CheckKeywordStrings emission dropped', 'C24-KWCOUNT; C24-KWSTR'),
     ('Cython/Utility/CythonFunction.c', 'Vectorcall_O without `args += 1`; CallAsMethod slices from 0', 'C24-VCSELF (2 variants)'),
     ('Cython/Compiler/Nodes.py', 'defaults written to values[i+1]; *args sliced from 0; FunctionArguments.c: `extracted++` dropped; casts around swapped arguments', 'MISSED (arithmetic / run-time counts, see NOT_DECIDED)'),
